@@ -179,6 +179,9 @@ async def early_reads_trial(lines, cfg, eav):
     try:
         for inc in (False,):      # (with include_expired=True the two may differ: reading purges expired messages lazily -- nothing says they are kept for ever)
             pa, pb = ga.get_state(include_expired=inc)[1], gb.get_state(include_expired=inc)[1]
+            sa, sb = ga.get_state(include_expired=inc)[0], gb.get_state(include_expired=inc)[0]
+            if not eav and sa.get("main_tcs") != sb.get("main_tcs"):
+                bad.append(("schema-depends-on-earlier-snapshots:main_tcs", f"asked on the way: main_tcs={sa.get('main_tcs')}; asked once at the end: main_tcs={sb.get('main_tcs')}", ""))
             if frames(pa) != frames(pb):
                 only_a = [pa[k][:70] for k in pa if k not in pb][:2]
                 only_b = [pb[k][:70] for k in pb if k not in pa][:2]
@@ -424,6 +427,14 @@ def run(ctx: Ctx) -> None:
              "2026-01-01T12:00:03.100000 045  I --- 01:145038 18:013393 --:------ 2309 003 0107D0",
              "2026-01-01T12:00:04.000000 045  I --- 04:189078 --:------ 01:145038 30C9 003 0007D0"]
     hists = [(witness, "crafted-313F", "crafted", {}), (clock, "crafted-clock-write", "crafted", {})] + [(clock[:k], "crafted-clock-write", "crafted", {}) for k in (4, 5, 6)]
+    # two systems on the air, the one with the LOWER controller id heard second: which of them the gateway calls its main one is a matter of the history,
+    # not of when somebody first looked (a running gateway saves its state now and then; the restart reads it once, at the end)
+    two = []
+    for j, c in enumerate(("01:200000", "01:100000")):
+        for i in range(18):
+            sec = j * 30 + i
+            two.append(f"2026-01-01T12:00:{sec:02d}.000000 045  I --- {c} --:------ {c} " + ("1F09 003 FF0514", f"30C9 003 00{0x07D0 + i:04X}", f"2309 003 00{0x0708 + i:04X}")[i % 3])
+    hists.append((two, "crafted-two-controllers", "crafted", {}))
     hists += [gw.derive(rng, syss) for _ in range(n_c)]
     for name, base, cfg in syss:            # the recorded systems verbatim, and every 40th prefix
         hists.append((base, "verbatim", name, cfg))
@@ -451,9 +462,9 @@ def run(ctx: Ctx) -> None:
         c2.setdefault("config", {})["enforce_known_list"] = False
         hists.append((base[:rng.randrange(min(60, len(base)), min(len(base), 400) + 1)], "known-list-not-enforced", name, c2))
     for lines, kind, name, cfg in hists:
-        eav = rng.random() < 0.5 if kind != "crafted-313F" else False
+        eav = rng.random() < 0.5 if kind not in ("crafted-313F", "crafted-two-controllers") else False
         try:
-            reads = 0 if kind == "crafted-313F" or len(lines) < 12 else rng.choice((0, 0, 5))
+            reads = 0 if kind == "crafted-313F" or len(lines) < 12 else 5 if kind == "crafted-two-controllers" else rng.choice((0, 0, 5))
             bad, _ = gw.run_async(fixpoint_trial, lines, cfg, eav, False, reads)
             # independence of earlier reads is stated for a clock that does not run backwards: expiry is a latch (C14: it never un-happens), so a read taken
             # while a rewinding log's clock stood LATER sees a message expired that the rewound clock at the end would still call live
